@@ -377,6 +377,13 @@ pub trait Caps: H {
     fn try_reserve_items_form(&mut self, items: &[Self::Owned], _form: u32) -> bool {
         self.try_reserve_items(items)
     }
+    /// `FlatStack::reserve_items(items.iter())` on a stack over this region
+    fn try_fs_reserve_items<S: flatcontainer::impls::index::IndexContainer<Self::Index>>(
+        _fs: &mut FlatStack<Self, S>,
+        _items: &[Self::Owned],
+    ) -> bool {
+        false
+    }
     fn try_serde(&self) -> Option<Self> {
         None
     }
